@@ -14,15 +14,32 @@ MANIFEST = {
             "prefix-free, arguments < 2^64), aad_injective (external_aad and Enc_structure determine alg, kid, piv), nonce_injective "
             "(minimal-length Partial IVs of any lengths) with distinct_piv_distinct_nonce for C15; libcoap's helpers (M) equal S: "
             "aad_eq_spec, nonce_eq_spec, option_value_eq_spec (encode and decode), split_eq_spec (protect split and decrypt merge), "
-            "info_eq_spec. On every run the real libcoap protects and unprotects "
+            "info_eq_spec. Sequences of exchanges on one context pair (state: token -> binding of the request it answers): "
+            "association_tracks_latest_request (for every sequence of requests with fresh or re-used tokens and of arriving datagrams "
+            "- genuine, late, duplicated, forged - the client's binding of a token is kid/Partial IV/nonce of the latest request sent "
+            "with it; induction over the step list), association_tracks_latest_request_impl (the same for libcoap's association list "
+            "with its update rule on re-use: aad, nonce and partial_iv all replaced), response_inputs_eq_spec (the nonce and the rebuilt "
+            "AAD libcoap's client verifies a response with are RFC 8613 8.4's for that binding), rejected_response_keeps_binding, "
+            "sequence_roundtrip (for every sequence and every token still bound: the server that verifies the latest request obtains "
+            "the same binding, and every response it protects for it, with or without its own Partial IV, is accepted and yields the "
+            "server's message; composes unprotect_protect_request/_response). On every run the real libcoap protects and unprotects "
             "generated exchanges (all methods/response codes, option mixes incl. Observe/Block/Proxy-Scheme, payload to 1 KiB, ids 0..7 "
             "bytes, ID context/salt present/absent, Partial IV 0..2^40-2) and its datagrams and recovered messages must equal S's byte for "
-            "byte (RFC 8613 Appendix C vectors included); every single-bit flip and truncation of sampled datagrams must be rejected "
+            "byte (RFC 8613 Appendix C vectors included); SEQUENCES of 2-6 requests on one client/server session pair (token re-use "
+            "after lost or held-back responses and after requests lost on the way, late responses to superseded requests, duplicates, "
+            "Observe registration with several notifications in and out of order, re-registration and cancellation under the same "
+            "token, responses with and without their own Partial IV) are compared step by step with S (datagrams, recovered messages, "
+            "rejections) and the client's association store after every step with M; every single-bit flip and truncation of sampled datagrams must be rejected "
             "where the RFC protects the bit (a test); helpers (option value, AAD, nonce, key derivation) are compared with M and S.",
     "note": "Not theorems: cryptographic strength / unforgeability ('every modification is rejected' is proved only as 'rejected iff "
             "the recomputed tag differs'). M covers libcoap's OSCORE helper functions (CBOR writers, AAD, nonce, option value, option "
-            "split/merge, info); that the whole of coap_oscore_new_pdu_encrypted / coap_oscore_decrypt_pdu equals S's protect / unprotect "
-            "is established by the differential runs, not by proof. The M = S theorems hold inside libcoap's limits (id <= 7 bytes, "
+            "split/merge, info) and the client's association store with its update rules; that the whole of "
+            "coap_oscore_new_pdu_encrypted / coap_oscore_decrypt_pdu equals S's protect / unprotect "
+            "is established by the differential runs, not by proof. Sequences stay inside what RFC 7252 5.3.1 / RFC 7641 allow a client "
+            "(the token of an active observation is re-used only to re-register or cancel); replay of a notification (same Partial IV "
+            "twice while the registration lasts) is C15's subject and is neither generated nor judged - libcoap's client accepts such a "
+            "duplicate (its response replay check is skipped while the recipient context is in its initial state, which a client's "
+            "never leaves): reported, not fixed here. The M = S theorems hold inside libcoap's limits (id <= 7 bytes, "
             "Partial IV <= 5 bytes, ID Context absent or 1..255 bytes, no Proxy-Uri, sorted options); the examples in Props/C14.lean show "
             "the limits are sharp. GnuTLS's AES-CCM/"
             "HMAC are an oracle on the implementation side, cross-checked against S's own primitives on every case; S's primitives are "
@@ -38,22 +55,35 @@ REQUIRED_THEOREMS = ["ccm_roundtrip", "tamper_detected_iff_tag_mismatch", "optio
                      "nonce_injective_same_length", "cbor_head_injective", "cbor_bstr_injective", "cbor_items_injective",
                      "aad_injective", "aad_injective_impl", "nonce_eq_spec", "nonce_injective", "pivBytes_minimal_encoding",
                      "distinct_piv_distinct_nonce", "distinct_pivs_distinct_nonces", "option_value_eq_spec", "split_eq_spec",
-                     "info_eq_spec", "unprotect_protect_request", "unprotect_protect_response", "unprotect_protect"]
+                     "info_eq_spec", "unprotect_protect_request", "unprotect_protect_response", "unprotect_protect",
+                     "association_tracks_latest_request", "association_tracks_latest_request_impl", "response_inputs_eq_spec",
+                     "rejected_response_keeps_binding", "sequence_roundtrip"]
 RULE = ("exchanges (one request and 0-3 responses/notifications per line) between a client and a server OSCORE context set up "
         "from master secret / salt / ID context / ids 0..7 bytes: all request methods and response codes, inner/outer option "
         "mixes incl. Observe, Block, Proxy-Scheme, Uri-Host/Port, Hop-Limit, No-Response, unknown options, payload 0..1 KiB, "
         "Partial IV 0..2^40-2 with the byte-length boundaries, mirrored and deliberately different contexts; the real libcoap "
         "protects and unprotects, the Lean RFC 8613 implementation S does the same from the same inputs and the datagrams and "
-        "recovered messages must be equal byte for byte; tamper lines: every single-bit flip and every truncation of a protected "
+        "recovered messages must be equal byte for byte; sequence lines (oseq): 2..6 requests over 1..3 tokens on ONE client and "
+        "one server session whose associations live for the whole line — per step a request (fresh token, or the token of an "
+        "earlier request whose response was lost / held back / never produced, delivered or lost on the way; plain, Observe "
+        "registration, re-registration, cancellation), a response or notification (with / without its own Partial IV; delivered, "
+        "lost, held back and delivered late — also after the token was re-bound —, or delivered twice), 8 scripted shapes first "
+        "(lost response then re-use, late response to the superseded request then the genuine one, request lost and retried, "
+        "notifications out of order, registration under the token of an unanswered request, re-registration, cancellation, three "
+        "retries), 6 % with a server Sender ID the client does not expect (every response must be rejected and every binding "
+        "stay); protected request and response bytes, what server and client recover or reject at every step against S, and the "
+        "client's association (partial_iv, nonce, aad, is_observe) after every request and delivery against M; tamper lines: every single-bit flip and every truncation of a protected "
         "datagram, delivered to freshly set-up endpoints (a TEST, labelled as such); helper lines: option value encode/decode, "
         "AAD, nonce, key derivation against M and S; crypto lines: SHA-256/HMAC/HKDF/AES-CCM of S against GnuTLS and the "
-        "published vectors; non-trivial = a line on which the recipient accepted at least one protected message, a tamper "
+        "published vectors; non-trivial = a line on which the recipient accepted at least one protected message (for a sequence: "
+        "the client accepted a response), a tamper "
         "line, or a helper/crypto line with a non-error result")
 TRUSTED_BASE = ["Lean 4.33 kernel; axioms allowed: propext, Classical.choice, Quot.sound (audited per theorem each run)",
                 "harness/oscore.c (contexts from configuration strings and zero-initialised sessions as in tests/test_oscore.c; "
-                "coap_send_internal / coap_send_ack_lkd wrapped), the generators and string comparison",
-                "M (CoapVerif/Model/Oscore.lean) is a hand transcription of libcoap's OSCORE helpers; checked against the compiled "
-                "code only on the cases run",
+                "coap_send_internal / coap_send_ack_lkd wrapped; sequences: both sessions live for the whole line, lost / late / "
+                "duplicated delivery is done by the harness), the generators incl. the SeqDomain walker, and string comparison",
+                "M (CoapVerif/Model/Oscore.lean, Model/OscoreAssoc.lean) is a hand transcription of libcoap's OSCORE helpers and of the "
+                "places that touch the client's association store; checked against the compiled code only on the cases run",
                 "GnuTLS (AES-CCM, HMAC-SHA-256) is an oracle on the implementation side, cross-checked against S's own primitives on "
                 "every case run; S's primitives are tested against FIPS/RFC vectors (tests, not proofs)"]
 ASSUMPTIONS = ["cryptographic strength (AEAD unforgeability, HKDF/SHA-256 properties) is not a theorem; what is proved is that "
@@ -70,7 +100,13 @@ SPEC_DECISIONS = ["D14.1 outer code POST/2.04, FETCH/2.05 with Observe", "D14.2 
                   "separate CON after an Empty ACK", "D14.8 lenient decompression where RFC 8613 §6.1 is silent", "D14.9 class E list = Figure 5 "
                   "+ Echo + Request-Tag", "D14.10 ID Context non-empty or absent, no Proxy-Uri", "D14.11 replay is C15's",
                   "D14.12 request must carry kid; kid in a response is not used", "D14.13 sequence numbers 0..2^40-2",
-                  "D14.14 request with Proxy-Scheme carries Hop-Limit; 4.01+Echo is handled inside the library"]
+                  "D14.14 request with Proxy-Scheme carries Hop-Limit; 4.01+Echo is handled inside the library",
+                  "D14.15 a response is verified with kid / Partial IV / nonce of the LATEST request sent with its token; re-using a "
+                  "token re-binds it; a response protected for a superseded request is verified against the new binding like any "
+                  "datagram and is not taken for the answer unless it verifies (its AAD carries the old request_piv: it does not)",
+                  "D14.16 a binding is consumed by the first response that verifies unless the request was an Observe registration "
+                  "(Observe 0); a response that does not verify changes nothing",
+                  "D14.17 replay of a notification is C15's subject, not judged here"]
 RUN_KW = {"timeout": 1200}
 
 # expected values of the published vectors (TESTS of S and of libcoap, keyed by input line)
